@@ -258,6 +258,45 @@ def quantile_family(ctx):
     ctx.sample(sub, {"shapes": shapes, "scales": scales, "sizes": sizes, "orders": ["asc", "desc", "inter"], "zero_share": [0, 0.2, 0.9], "ties": [False, True]})
 
 
+def nodata_argument(ctx):
+    """spi(nodata=v) for v in {-9999, 0, 7} against every state of attrs['nodata'] (absent, equal, conflicting): the
+    argument decides - the result is the kernel's on the same cube with that marker (ungrouped and grouped)."""
+    import pandas as pd
+    import xarray as xr
+    st = _st()
+    sub = "nodata_argument"
+    n = 4
+    alphabet = [-9999, 0, 1, 7, 30]
+    idx = sse.word_indices(len(alphabet), n)
+    x = sse.render(idx, alphabet).astype("int16")
+    N = x.shape[0]
+    time = pd.date_range("2000-01-01", periods=n, freq="10D")
+    g = np.array([0, 0, 1, 1], dtype="int16")
+    ci = np.array([[0, 2], [0, 2]], dtype="int16")
+    for v in (-9999, 0, 7):
+        exp = np.asarray(st.gammastd_yxt(x.reshape(N, 1, n), v, 0, n)).reshape(N, n)
+        exp_g = np.asarray(st.gammastd_grp(x, g, 2, v, ci))
+        for attr in ("<absent>", -9999, 0, 7):
+            attrs = {} if attr == "<absent>" else {"nodata": attr}
+            da = xr.DataArray(x.reshape(25, 25, n).copy(), dims=("y", "x", "time"), coords={"time": time}, attrs=attrs)
+            for grouped in (False, True):
+                what = f"spi(nodata={v}{', groups=[0,0,1,1]' if grouped else ''}) with attrs nodata {attr}"
+                try:
+                    res = da.hdc.algo.spi(nodata=v, groups=[0, 0, 1, 1]) if grouped else da.hdc.algo.spi(nodata=v)
+                    got = res.values.reshape(N, n)
+                except Exception as e:
+                    ctx.violation(sub, {"nodata": v, "attr": attr, "grouped": grouped}, {"kind": "nd_arg"}, f"{what} raised {type(e).__name__}: {e}")
+                    continue
+                e_ = exp_g if grouped else exp
+                ctx.count(sub, evaluations=N, nontrivial=N if attr != v else 0)
+                bad = (got != e_).any(axis=1)
+                if bad.any():
+                    r = int(np.nonzero(bad)[0][0])
+                    ctx.violation(sub, {"nodata": v, "attr": attr, "grouped": grouped}, {"kind": "nd_arg"},
+                                  f"{what}: pixel {x[r].tolist()} -> {got[r].tolist()}, the kernel with nodata={v} gives {e_[r].tolist()}")
+    ctx.sample(sub, {"cube": f"all {N} words of length {n} over {alphabet}", "argument": [-9999, 0, 7], "attrs": ["<absent>", -9999, 0, 7]})
+
+
 def attr_histories(ctx):
     """spi() on one long-lived object whose nodata attribute is edited in place between calls."""
     import pandas as pd
@@ -296,6 +335,7 @@ def run(ctx):
     accessor(ctx, letters)
     quantile_family(ctx)
     attr_histories(ctx)
+    nodata_argument(ctx)
 
 
 def replay(sub, case, p):
@@ -311,6 +351,8 @@ def replay(sub, case, p):
         compare(out, idx, letters, i, j, case["entry"], p, sub, rel_f32=case["entry"].endswith("f32") or "float32" in case["entry"])
     elif case["kind"] == "attr_history":
         attr_histories(p)
+    elif case["kind"] == "nd_arg":
+        nodata_argument(p)
     elif case["kind"] == "qg":
         p.thorough = lambda: False
         quantile_family(p)
